@@ -179,7 +179,7 @@ var ghostTableURI func(t *Table) string
 
 //@ func SearchIndex.IndexOffset
 //@   property C17
-//@   requires si.itemsWritten >= 0
+//@   requires si.itemsWritten >= 0 && 0 <= offset && offset < 4294967296
 //@   modifies si.offsets, si.itemsWritten
 //@   ensures si.itemsWritten == old(si.itemsWritten) + 1
 //@   ensures old(si.itemsWritten)%16 == 0 ==> len(si.offsets) == old(len(si.offsets)) + 1 && si.offsets[old(len(si.offsets))] == uint32(offset)
